@@ -25,18 +25,18 @@ class C01(Prop):
                   "(partial writes, Pending anywhere; calls awaited, R-14) the request stream is handed exactly wire(m) "
                   "(+ the grease frame if owed) and finished (from C14); C01_wire_is_valid_message — the RFC 9114 oracle reads "
                   "wire(m) as [HEADERS section, DATA piece_1..piece_n, (HEADERS trailers)?] and a clean end, the sections "
-                  "RFC-9204-decode to pseudo fields ++ map iteration (C11, C12); C01_recv_of_wire_partial — for EVERY transport "
+                  "RFC-9204-decode to pseudo fields ++ map iteration (C11, C12); C01_recv_of_wire — for EVERY transport "
                   "script carrying those bytes (any non-empty chunks, pend anywhere, then FIN) the documented receive pattern, "
                   "every call awaited, over the FrameStream model hands over the same head, header map (per-name order kept), "
                   "body = concatenation of the pieces, trailers, exactly one clean end, no error, under size <= "
-                  "max_field_section_size (C10) — proved directly from the C02 invariant, no FrameSim hypothesis; "
-                  "C01_delivered_parts — same method, scheme, authority, path / status; C01_end_to_end_partial — the "
-                  "composition for requests and responses; C01_interleaving_irrelevant_partial — the record of a request "
-                  "stream after ANY run of the C14 connection machine depends only on the steps addressing it, receive "
-                  "components share only the error cell which every call leaves alone unless it answers a connection "
-                  "error, split halves act on disjoint components. _partial: sections of more than 24576 fields are refused "
-                  "by the receiver (C01_field_count_refused, observed on the real code); the connection driver is not a "
-                  "component of the interleaving products")
+                  "max_field_section_size (C10) — proved directly from the C02 invariant, no FrameSim hypothesis, no limit on "
+                  "the number of fields (D-01 repaired); C01_delivered_parts — same method, scheme, authority, path / status; "
+                  "C01_end_to_end — the composition for requests and responses; C01_field_count_refused — the only limit left "
+                  "is http::HeaderMap's 24576 distinct names, which neither the sender's map can hold nor the receiver's; "
+                  "C01_interleaving_irrelevant_partial — the record of a request stream after ANY run of the C14 connection "
+                  "machine depends only on the steps addressing it, receive components share only the error cell which every "
+                  "call leaves alone unless it answers a connection error, split halves act on disjoint components (_partial: "
+                  "the connection driver is not a component of the interleaving products)")
     level_note = ("trusted: Lean kernel + 3 axioms; component models tied by their own correspondence runs; the two-endpoint "
                   "SimQuic run (two real h3 endpoints joined by a scripted relay) ties the composition: the driver's MODEL half "
                   "is H3.E2E.deliver over a chunking of H3.E2E.wire of the scenario's message, with the identity instance of "
@@ -46,13 +46,14 @@ class C01(Prop):
             "so; messages from alphabets of methods, absolute/authority-form targets, duplicate header names, high-byte values, "
             "bodies 0..64 KiB in arbitrary send pieces incl. empty ones, trailers or not; relay whole / in random 1..7-byte "
             "pieces / partial per stream; sender back-pressure via write credit; receiving calls posted before or after the "
-            "data; executor order seeds; whole or split request streams; 1..2 concurrent requests; non-trivial = the request "
-            "head was delivered")
+            "data; executor order seeds; whole or split request streams; 1..2 concurrent requests; one exchange whose request "
+            "and response each carry more than 24576 fields (values under one name); non-trivial = the request head was "
+            "delivered")
     trusted = ["http crate (HeaderMap order, Uri/Method parsing and printing): parameter Http with HttpLaws (C12) and the "
                "round-trip facts PseudoBack / HttpRoundTrip (parse(as_str(v)) = v for the crate's own Scheme, Authority, "
                "PathAndQuery values; a built Uri has the parts it was built from), checked by the e2e run itself"]
-    assumptions = ["well-formed messages only (names lowercase tokens, values legal bytes; octets; at most 24576 fields per "
-                   "section: a limit of the receiver, C01_field_count_refused)",
+    assumptions = ["well-formed messages only (names lowercase tokens, values legal bytes; octets; fields the sender's own "
+                   "http::HeaderMap can hold: at most 24576 distinct names, any number of values)",
                    "API programs are sequences of completed calls (R-14)",
                    "transport chunks are non-empty; a delivery arriving after a poll is a `pend` in the script (R-T)",
                    "field sections within the receiver's max_field_section_size and the peer's advertised limit (C10)"]
@@ -244,9 +245,17 @@ class C01(Prop):
             out.append(op)
         return "e2e %s %s %s" % (ccfg, scfg, " ".join(out))
 
+    def many_fields_case(self):
+        """D-01 (repaired): a request and a response with more than 24576 fields each — values under one
+        name, statically indexed so that the sections stay small — must be delivered like any other."""
+        req = ";".join(["accept=2a2f2a"] * 24573)          # + 4 pseudo-header fields = 24577 fields
+        resp = ";".join(["vary=6f726967696e"] * 24580)
+        return ("e2e g0,seed=1 g0 >> << s.conn.AL c.drv.W c.snd.R:GET:%s:%s c.q0.sd:0102 c.q0.fi >> s.q0.res s.q0.rm "
+                "s.q0.sr:200:%s s.q0.sd:03 s.q0.fi << c.q0.rr c.q0.rm" % (hexs("https://a.b/"), req, resp))
+
     def cases(self, tier, rng):
         big = tier == "thorough"
-        return [self.one_case(rng, big) for _ in range(4000 if big else 700)]
+        return [self.one_case(rng, big) for _ in range(4000 if big else 700)] + [self.many_fields_case()]
 
     def shrink_candidates(self, line):
         w = line.split()
